@@ -34,3 +34,8 @@ for ob_, nm, shapes in [(1, 'object', (0, 1, 2, 3, 4, 5)), (0, 'array', (0, 1, 3
         OBS.append(Ob(['C11', 'C03', 'C15'], 'md_read_%s_filter_%d' % (nm, fs_), 'mpd_fcont', 'harness/mpd_cont.c', 'h_md_container_filter', defs=['UNIT_H="mpd_fcont.h"', 'OBJECT=%d' % ob_, 'FSHAPE=%d' % fs_], unwind=6, cap=400, hunwind=8, fs='none', objbits=12,
             desc='MsgPack read%s under filter shape %d (true / {"k":true} / {"x":true} / {} / {"*":true} / [true] / []): container created iff admitted, null destination exactly for discarded entries, slots only for kept ones, limit-1, count honoured' % (nm.capitalize(), fs_),
             bound='announced count 0..3, all limits, every child / key / allocation behaviour allowed by the contracts'))
+
+# ---- ARDUINOJSON_USE_DOUBLE=0: float64 payloads are rounded to the nearest float (not truncated, no flush of float subnormals)
+UNITS += [Unit('mpd_nd', 'wrappers/mpd.cpp', defs=MPD + ['ARDUINOJSON_USE_DOUBLE=0'], cuts={'CUT_RA': r'MsgPackDeserializerI7VReaderE9readArrayINS1_14AllowAllFilterE', 'CUT_RO': r'MsgPackDeserializerI7VReaderE10readObjectINS1_14AllowAllFilterE'})]
+OBS.append(Ob(['C09'], 'md_variant_floats_nodouble', 'mpd_nd', 'harness/mpd.c', 'h_md_variant', defs=['UNIT_H="mpd_nd.h"', 'NB=10', 'FAMILY=2', 'NODOUBLE=1'], unwind=13, cap=600, hunwind=20, fs='none',
+    desc='ARDUINOJSON_USE_DOUBLE=0 build: float32 exact, float64 == (float)value rounded to nearest, truncation => IncompleteInput', bound='0xCA/0xCB x all payloads x every truncation length'))
